@@ -293,9 +293,93 @@ def sec_single_qubit(ctx, rng, case):
     ctx.distinct((tuple(P.describe(steps)), reps, sym_at), nontrivial=not L.allclose(U, np.eye(2), 1e-6))
 
 
+
+def _gen_shadow(rng, n, depth, outer_has_key):
+    """nested blocks that measure the SAME key name at several depths (shadowing) with controls at every depth"""
+    items = []
+    qm, qt = 0, 1 % n
+    has = outer_has_key
+    def ctrl():
+        tgt = int(rng.integers(n))
+        c = {"t": "key", "key": "a", "index": -1} if rng.random() < 0.7 else {"t": "sympy_eq", "key": "a", "dims": (2,), "const": int(rng.integers(2))}
+        return {"t": "C", "cond": c, "inner": {"t": "U", "spec": "XPow", "p": (1.0, 0.0), "w": (tgt,)}}
+    if has and rng.random() < 0.5:
+        items.append(ctrl())
+    if rng.random() < 0.75:
+        w = int(rng.integers(n))
+        if rng.random() < 0.5:
+            items.append({"t": "U", "spec": "XPow", "p": (1.0, 0.0), "w": (w,)})
+        elif rng.random() < 0.5:
+            items.append({"t": "U", "spec": "HPow", "p": (1.0, 0.0), "w": (w,)})
+        items.append({"t": "M", "key": "a", "w": (w,)})
+        has = True
+    if has and rng.random() < 0.6:
+        items.append(ctrl())
+    if depth > 0:
+        body = _gen_shadow(rng, n, depth - 1, has)
+        if body:
+            reps = int(rng.choice([1, 1, 2]))
+            mode = int(rng.integers(4))
+            blk = {"t": "B", "body": body, "reps": reps, "ids": None, "use_ids": None, "qmap": {}, "kmap": {}}
+            if mode == 0:
+                blk["ids"] = ["i%d" % k for k in range(reps)]
+            elif mode == 1:
+                blk["use_ids"] = True
+            elif mode == 2:
+                blk["use_ids"] = False
+            items.append(blk)
+            if B._effective_ids(blk) is None and B._local_measured_names(body):
+                has = True
+    if has and rng.random() < 0.6:
+        items.append(ctrl())
+    return items
+
+
+def sec_shadow(ctx, rng, case):
+    """key shadowing: the same key measured at several scope depths, controls at every depth, ids on some levels"""
+    import cirq
+
+    n = int(rng.integers(2, 4))
+    dims = (2,) * n
+    items = _gen_shadow(rng, n, int(rng.integers(2, 5)), False)
+    items.append({"t": "M", "key": "z", "w": tuple(range(n))})
+    flat = B.flatten(items)
+    if not _has_block(items) or B.count_digits(items) > 9 or B.flat_unbound_controls(flat):
+        return
+    qubits = P.make_qubits(rng, dims)
+    circuit = cirq.Circuit(B.items_to_moments(items, qubits))
+    wit = dict(n=n, tree=B.describe(items))
+    want_keys = B.flat_keys(flat)
+    got_keys = sorted(cirq.measurement_key_names(circuit))
+    ctx.check(got_keys == want_keys, "keys==flat", "C12:shadow-measurement-keys", "%r vs %r" % (got_keys, want_keys), **wit)
+    ref = I.distribution(I.run(B.flat_to_ref(flat), dims))
+    kind = ["sv", "sv-nosplit", "dm"][int(rng.integers(3))]
+    try:
+        ex = _explore_run(circuit, kind)
+    except ValueError as e:
+        if "missing when testing classical control" not in str(e):
+            raise
+        ctx.check(False, "distribution==flat", "C12:shadow-control-key-unresolved", str(e)[:200], **wit)
+        return
+    if ex.over_budget:
+        ctx.event("explorer-over-budget")
+        return
+    tv = L.tv_distance(ex.distribution(), ref)
+    ctx.check(tv <= 1e-6, "distribution==flat", "C12:shadow-distribution:" + kind,
+              lambda: "outcome distribution differs from the unrolled program by TV %.3g (a control is bound to the wrong measurement)" % tv, **wit)
+    # the control keys of the unrolled circuit Cirq produces must be exactly the bound keys of the flat program
+    un = cirq.unroll_circuit_op(circuit, deep=True, tags_to_check=None)
+    got_ctrl = sorted({str(k) for op in un.all_operations() for k in cirq.control_keys(op)})
+    want_ctrl = sorted({B.keystr(s_["ckey"]) for s_ in flat if s_["t"] == "C"})
+    ctx.check(got_ctrl == want_ctrl, "keys==flat", "C12:shadow-bound-control-keys", "unrolled circuit controls on %r, scoping rules give %r" % (got_ctrl, want_ctrl), **wit)
+    ctx.distinct(tuple(B.describe(items)), nontrivial=len(want_ctrl) >= 1 and len(want_keys) >= 3)
+    ctx.sample({"n": n, "tree": B.describe(items)[:16], "bound_controls": want_ctrl})
+
+
 SECTIONS = [
     ("unitary", sec_unitary, 2000, 40000, 2.0),
     ("measured", sec_measured, 2800, 50000, 4.0),
     ("compose", sec_compose, 1200, 20000, 1.0),
     ("single_qubit", sec_single_qubit, 900, 15000, 0.5),
+    ("shadow", sec_shadow, 2500, 50000, 3.0),
 ]
